@@ -145,8 +145,11 @@ def gen_token_case(rng):
         filters = flist(wrong(D))
     elif mode == 2:
         weights, filters = wlist(wrong(D)), flist(wrong(D))
+    w_as = rng.choice(["array", "list", "intarray", "intlist"])
+    if w_as.startswith("int") and weights is not None:
+        weights = [float(round(x)) for x in weights]          # whole numbers, so that they can be given with an integer dtype
     return {"part": "token", "D": D, "E": E, "N": N, "sim": sim, "real": real, "weights": weights, "filters": filters,
-            "w_as": rng.choice(["array", "list"]), "f_as": rng.choice(["list", "tuple"]),
+            "w_as": w_as, "f_as": rng.choice(["list", "tuple"]),
             "rel": rng.choice(["perm", "onehot", "zero", "linear"]),
             "perm": _perm(rng, D), "w2": wlist(D), "a": dy(rng, -2, 2, 4), "b": dy(rng, -2, 2, 4),
             "j": rng.below(max(D, 1))}
@@ -165,10 +168,19 @@ def _arrays(case):
     return sim, real
 
 
-def _mk_w(case, w):
+def _as_weights(case, w):
+    """weights as the caller may legitimately give them: float array, list of floats, or - when every weight is a whole number -
+    an INTEGER-typed array / list of Python ints (e.g. np.array([2, 1, 3]) or a 0/1 mask)"""
     if w is None:
         return None
-    return np.array(w, dtype=float) if case["w_as"] == "array" else list(w)
+    kind = case.get("w_as", "array")
+    if kind.startswith("int") and all(float(x).is_integer() for x in w):
+        return np.array([int(x) for x in w], dtype=np.int64) if kind == "intarray" else [int(x) for x in w]
+    return np.array(w, dtype=float) if kind in ("array", "intarray") else list(w)
+
+
+def _mk_w(case, w):
+    return _as_weights(case, w)
 
 
 def _mk_f(case, f):
@@ -507,8 +519,11 @@ def gen_builtin_case(rng, kind=None):
     wm = rng.below(4)
     weights = None if wm == 0 else [round(rng.uniform(0, 2), 3) if rng.below(5) else 0.0 for _ in range(D)]
     E2, N2 = rng.randint(1, 4), (rng.randint(9, 20) if kind in HEAVY else rng.randint(6, 24))
+    w_as = rng.choice(["array", "list", "intarray", "intlist"])
+    if w_as.startswith("int") and weights is not None:
+        weights = [float(rng.randint(0, 3)) for _ in range(D)]
     return {"part": "builtin", "kind": kind, "D": D, "E": E, "N": N, "sim": arr(E, N, D), "real": arr(N, D),
-            "weights": weights, "filters": filters, "w_as": rng.choice(["array", "list"]),
+            "weights": weights, "filters": filters, "w_as": w_as,
             "f": rng.choice([0.1, 0.3, 0.5, 0.8, 1.0]), "wseed": rng.below(1 << 30),
             "other_sim": arr(E2, N2, D), "other_real": arr(N2, D), "other_wrongD_real": arr(N2, D + 1),
             "other_wrongD_sim": arr(E2, N2, D + 1),
@@ -572,9 +587,7 @@ def run_builtin(case):
         return None if names is None else [None if n is None else NAMED_FILTERS[n] for n in names]
 
     def mkw(w):
-        if w is None:
-            return None
-        return np.array(w, dtype=float) if case["w_as"] == "array" else list(w)
+        return _as_weights(case, w)
 
     R = Rel()
     info = {}
